@@ -212,10 +212,23 @@ func (v *Vue) evalPipe(ctx VueContext, expr pipeExpr) (any, error) {
 	var ok bool
 	val, ok = ctx.stack.Resolve(expr.initial)
 	if !ok {
-		if len(expr.segments) > 0 {
+		switch {
+		case helpers.IsFunctionCall(expr.initial) && filterRe.MatchString(expr.initial):
+			// the head of the pipe is itself a function call: fn(a) | g
+			head, err := v.evalPipe(ctx, parsePipeExpr(expr.initial))
+			if err != nil {
+				return nil, err
+			}
+			val = head
+		case len(expr.segments) > 0:
 			val = nil // Pass nil to first segment filter
-		} else {
-			return nil, fmt.Errorf("variable '%s' not found", expr.initial)
+		default:
+			// not a variable: a call followed by an operator without spaces, e.g. len(items)%2
+			res, err := v.exprEval.Eval(expr.initial, ctx.stack.EnvMap())
+			if err != nil {
+				return nil, fmt.Errorf("variable '%s' not found", expr.initial)
+			}
+			return res, nil
 		}
 	}
 
